@@ -281,8 +281,12 @@ func (li *Listener) Close() error {
 	li.doneOnce.Do(func() {
 		close(li.doneChan)
 	})
+	// Close the QUIC listener before its packet connection: closing the packet connection first makes
+	// the transport's read loop shut the server down under the transport mutex while ql.Close() holds
+	// the server's close-once and waits for that mutex (lock inversion inside quic-go).
+	qerr := li.ql.Close()
 	perr := li.pc.Close()
-	if qerr := li.ql.Close(); qerr != nil {
+	if qerr != nil {
 		return qerr
 	}
 
